@@ -2,6 +2,7 @@ from torchvision.datasets import ImageFolder
 from torchvision.datasets.folder import default_loader
 
 from kappadata.datasets.kd_dataset import KDDataset
+from kappadata.transforms.base.kd_transform import KDTransform
 
 
 class KDImageFolder(KDDataset):
@@ -34,6 +35,11 @@ class KDImageFolder(KDDataset):
 
     def getshape_class(self):
         return len(self.dataset.classes),
+
+    def worker_init_fn(self, rank, **kwargs):
+        super().worker_init_fn(rank, **kwargs)
+        if isinstance(self.transform, KDTransform):
+            self.transform.worker_init_fn(rank, **kwargs)
 
     def __len__(self):
         return len(self.dataset)
